@@ -105,6 +105,26 @@ def accounting_cases(rng, tier):
                     c.fail("wrap after unwrap reproduced an earlier key block byte for byte (pad not drawn afresh)")
                 seen.append(w.value)
             yield c
+    # the header given as the text of an existing key block (only its header part is used): wrapping the very key that block carries, under
+    # the very KBPK, is a wrap like any other - one entropy request, a fresh pad, another block
+    for ver in "ABCD":
+        bs, ksizes, ml = VERS[ver]
+        for mask in (None, 40):
+            kbpk, key = rb(rng, ksizes[-1]), rb(rng, rng.choice([8, 16, 24]))
+            first = tr31.wrap(kbpk, make_header(rng, ver, rand_blocks(rng, rng.randrange(0, 2)), alg=rng.choice("TDA")), key, mask)
+            c = Case(f"accounting:wrap:{ver}:header-is-an-existing-key-block", {"mask": mask})
+            seen = {first}
+            for _ in range(2):
+                w = wrap_case(c, kbpk, first, key, mask)
+                if not w.ok:
+                    c.fail(f"wrap with a key block text as header raised {w.err}")
+                    break
+                if len(w.requests) != 1 or not w.entropy:
+                    c.fail(f"wrap with a key block text as header requested OS entropy {w.requests}, expected one request")
+                if w.value in seen:
+                    c.fail("wrap with a key block text as header returned a block it (or the caller) had already: the pad was not drawn afresh")
+                seen.add(w.value)
+            yield c
     # chosen values of the operating system's entropy (extremes and rejection boundaries of the choice map, constant pads): every
     # admissible fill value must come out exactly as the draws dictate - all-A, all-F, fills reached only through rejected draws
     def crafted(n):
